@@ -581,6 +581,25 @@ fn alpha_law(c: &mut Case, cx: &Ctx, d: u8, src: &RgbaImage, dec: &RgbaImage) {
         }
     }
     c.count(&format!("alpha_checks_d{d}"), total);
+    // quantising to a depth = scaling to the level range the decoder expands from (q * 255 / levels) and rounding by one rule:
+    // which rule (down / nearest / up) is the encoder's choice, but it is one rule for every pixel of the image (after
+    // C16-r6m3: a shift by 8 - d bits rounds down near 0 and up near 255 on that scale)
+    if d > 0 && total > 0 && fl != total && ro != total && ce != total {
+        let pick = |want_floor: bool| {
+            src.pixels().zip(dec.pixels()).find_map(|(s, o)| {
+                let num = s[3] as u32 * levels;
+                let (lo, hi) = (num / 255, num.div_ceil(255));
+                let ex = |q: u32| (q * 255 / levels) as u8;
+                (lo != hi && o[3] == ex(if want_floor { lo } else { hi }) && (2 * num + 255) / 510 == if want_floor { hi } else { lo }).then_some((s[3], o[3]))
+            })
+        };
+        c.violate(
+            cx.sig("raw1-alpha", &format!("depth{d}|no-single-rounding-rule")),
+            format!("alpha depth {d}: of {total} pixels {fl} agree with rounding down, {ro} with rounding to nearest, {ce} with rounding up - no rule explains all of them (rounded down although nearer the upper level: {:?}; rounded up although nearer the lower level: {:?}, as (source, decoded))", pick(true), pick(false)),
+            json!({"pixels": total, "floor": fl, "nearest": ro, "ceil": ce}),
+        );
+        return;
+    }
     if d > 0 {
         c.count(&format!("alpha_d{d}_consistent_with_floor"), fl);
         c.count(&format!("alpha_d{d}_consistent_with_round"), ro);
